@@ -518,8 +518,10 @@ theorem trans_limbo_count {g g' : G} {pc pc' : PC} {sp : List PC}
        simp [atUTerm])
   | done => simp [MV.Model.Registry.trans] at ht
 
-theorem sinv_init : SInv Registry.init :=
-  ⟨ginv_init, by intro pc h; cases h, by intro a p; simp [Registry.init]⟩
+theorem sinv_init : SInv MV.Model.Registry.init := by
+  refine ⟨ginv_init, ?_, ?_⟩
+  · intro pc h; simp [MV.Model.Registry.init] at h
+  · intro a p; simp [MV.Model.Registry.init]
 
 theorem sinv_step (s s' : State) (i : Nat) (h : SInv s) (hs : step sys s i = some s') : SInv s' := by
   obtain ⟨pc, pc', sp, hpc, ht, hths, hc⟩ := step_spec sys s s' i hs
@@ -559,7 +561,91 @@ theorem sinv_spawn (s : State) (pc : PC) (h : SInv s) (ha : sys.allowed pc = tru
     cases pc <;> simp_all [sys, allowed, atUTerm]
 
 /-- the invariant holds after every schedule -/
-theorem all_reachable (sched : List (Ev PC)) : SInv (exec sys Registry.init sched) :=
-  exec_inv sys SInv sinv_step sinv_spawn Registry.init sinv_init sched
+theorem all_reachable (sched : List (Ev PC)) : SInv (exec sys MV.Model.Registry.init sched) :=
+  exec_inv sys SInv sinv_step sinv_spawn MV.Model.Registry.init sinv_init sched
+
+/-! ## what a step adds to the trace -/
+
+/-- a `lin` event of a lookup that answers `p` -/
+def decides (p : Proc) : TrEv → Bool
+  | .lin _ (.get _ (some q)) => q == p
+  | _ => false
+
+/-- every step appends to the trace, never un-removes a process, and — in a state satisfying the
+invariant — no lookup decides for a process whose `Unregister` has returned -/
+theorem step_trace (s s' : State) (i : Nat) (h : SInv s) (hs : step sys s i = some s') :
+    ∃ evs, s'.g.tr = s.g.tr ++ evs ∧ (∀ p, p ∈ s.g.gone → p ∈ s'.g.gone) ∧
+      ∀ p, p ∈ s.g.gone → ∀ e ∈ evs, decides p e = false := by
+  obtain ⟨pc, pc', sp, hpc, ht, -, -⟩ := step_spec sys s s' i hs
+  simp only [sys] at ht
+  generalize s'.g = g' at ht ⊢
+  cases pc with
+  | gIsTerm k r p0 =>
+    simp only [MV.Model.Registry.trans] at ht
+    split at ht
+    · simp only [Option.some.injEq, Prod.mk.injEq] at ht
+      obtain ⟨rfl, -, -⟩ := ht
+      exact ⟨[], by simp, fun p hp => hp, by intro p _ e he; cases he⟩
+    · rename_i hnt
+      simp only [Option.some.injEq, Prod.mk.injEq] at ht
+      obtain ⟨rfl, -, -⟩ := ht
+      refine ⟨_, rfl, fun p hp => hp, ?_⟩
+      intro p hp e he
+      have hne : p0 ≠ p := by
+        intro e'; rw [e'] at hnt; exact hnt (h.ginv.goneDead p hp).1
+      simp only [List.mem_cons, List.not_mem_nil, or_false] at he
+      rcases he with rfl | rfl <;> simp [decides, hne]
+  | gMLoad k r =>
+    simp only [MV.Model.Registry.trans] at ht
+    split at ht
+    · simp only [Option.some.injEq, Prod.mk.injEq] at ht
+      obtain ⟨rfl, -, -⟩ := ht
+      refine ⟨_, rfl, fun p hp => hp, ?_⟩
+      intro p hp e he
+      simp only [List.mem_cons, List.not_mem_nil, or_false] at he
+      rcases he with rfl | rfl <;> simp [decides]
+    · rename_i q hmap
+      simp only [Option.some.injEq, Prod.mk.injEq] at ht
+      obtain ⟨rfl, -, -⟩ := ht
+      refine ⟨_, rfl, fun p hp => hp, ?_⟩
+      intro p hp e he
+      have hne : q ≠ p := by
+        intro e'; rw [e'] at hmap; exact (h.ginv.goneDead p hp).2 _ hmap
+      simp only [List.mem_cons, List.not_mem_nil, or_false] at he
+      rcases he with rfl; simp [decides, hne]
+  | uTerm k a p0 =>
+    simp only [MV.Model.Registry.trans, Option.some.injEq, Prod.mk.injEq] at ht
+    obtain ⟨rfl, -, -⟩ := ht
+    refine ⟨_, rfl, fun p hp => List.mem_cons_of_mem _ hp, ?_⟩
+    intro p hp e he
+    simp only [List.mem_cons, List.not_mem_nil, or_false] at he
+    rcases he with rfl | rfl <;> simp [decides]
+  | rCall _ | uCall _ | gCall _ | gCStore _ _ _ =>
+    simp only [MV.Model.Registry.trans, Option.some.injEq, Prod.mk.injEq] at ht
+    obtain ⟨rfl, -, -⟩ := ht
+    refine ⟨_, rfl, fun p hp => hp, ?_⟩
+    intro p hp e he
+    simp only [List.mem_cons, List.not_mem_nil, or_false] at he
+    rcases he with rfl; simp [decides]
+  | gCClear _ _ =>
+    simp only [MV.Model.Registry.trans, Option.some.injEq, Prod.mk.injEq] at ht
+    obtain ⟨rfl, -, -⟩ := ht
+    exact ⟨[], by simp, fun p hp => hp, by intro p _ e he; cases he⟩
+  | gCLoad _ _ =>
+    simp only [MV.Model.Registry.trans] at ht
+    split at ht <;>
+      (simp only [Option.some.injEq, Prod.mk.injEq] at ht
+       obtain ⟨rfl, -, -⟩ := ht
+       exact ⟨[], by simp, fun p hp => hp, by intro p _ e he; cases he⟩)
+  | rLos _ _ | uLad _ _ =>
+    simp only [MV.Model.Registry.trans] at ht
+    split at ht <;>
+      (simp only [Option.some.injEq, Prod.mk.injEq] at ht
+       obtain ⟨rfl, -, -⟩ := ht
+       refine ⟨_, rfl, fun p hp => hp, ?_⟩
+       intro p hp e he
+       simp only [List.mem_cons, List.not_mem_nil, or_false] at he
+       rcases he with rfl | rfl <;> simp [decides])
+  | done => simp [MV.Model.Registry.trans] at ht
 
 end MV.Lemmas.Registry
